@@ -987,6 +987,43 @@ pub fn utf8_strings(depth: u32) -> Vec<Vec<u8>> {
     out
 }
 
+/// Probe texts for the comparisons of a value with a string (`== &str`, `== str`): for a canonical
+/// text `c` every proper prefix, `c` extended by a letter / NUL / separator, case twins, a changed
+/// last byte, and -- valid UTF-8 throughout -- a 2-, 3- and 4-byte character inserted at and
+/// replacing every byte offset (a comparison that slices the text at the value's own byte
+/// offsets meets a character boundary violation exactly there).  Only `c` itself may compare equal.
+pub fn eq_probes(c: &str) -> Vec<String> {
+    let mut out: Vec<String> = vec![];
+    // every byte offset of a text up to 48 bytes; the first and last 24 offsets of a longer one
+    // (the number of probes stays linear in the length of the text)
+    let pos: Vec<usize> = if c.len() <= 48 { (0..=c.len()).collect() } else { (0..24).chain(c.len() - 24..=c.len()).collect() };
+    for &i in pos.iter().filter(|&&i| i < c.len()) {
+        out.push(c[..i].to_string());
+    }
+    for suffix in ["a", "\0", "-", "-x", "_"] {
+        out.push(format!("{}{}", c, suffix));
+    }
+    out.push(format!("\0{}", c));
+    out.push(c.to_ascii_uppercase());
+    out.push(c.to_ascii_lowercase());
+    out.push(c.replace('-', "_"));
+    if let Some(last) = c.chars().last() {
+        let other = if last == 'a' { 'b' } else { 'a' };
+        out.push(format!("{}{}", &c[..c.len() - 1], other));
+    }
+    for &i in &pos {
+        for ch in ["\u{e9}", "\u{20ac}", "\u{1f600}"] {
+            out.push(format!("{}{}{}", &c[..i], ch, &c[i..]));
+            if i < c.len() {
+                out.push(format!("{}{}{}", &c[..i], ch, &c[i + 1..]));
+                out.push(format!("{}{}", &c[..i], ch));
+            }
+        }
+    }
+    out.retain(|p| p != c);
+    out
+}
+
 /// Order hazards (space E4.order).  The library keeps variants, attributes and private tags
 /// sorted by the byte-lexicographic order of `TinyStr8`; the same subtags also have an integer
 /// form (little-endian u64) that is used as a sort key elsewhere (the likely-subtags tables, the
@@ -999,10 +1036,12 @@ pub fn utf8_strings(depth: u32) -> Vec<Vec<u8>> {
 ///   length, then lex    1zzz < 9aaa < aaaaz < zaaaa < bbbbbb < aaaaaaaa
 /// plus real registered pairs on which the integer order differs (hepburn/heploc,
 /// arevela/fonipa, ekavsk/fonipa, 1606nict/1996).
-pub const ORDER_VARIANTS: [&str; 6] = ["zaaaa", "aaaaz", "bbbbbb", "1zzz", "9aaa", "aaaaaaaa"];
-pub const ORDER_REAL_PAIRS: [(&str, &str); 4] = [("hepburn", "heploc"), ("arevela", "fonipa"), ("ekavsk", "fonipa"), ("1606nict", "1996")];
+/// `aaaaa` / `aaaaaaaa` and `1zzz` / `1zzzab` are prefix-related (an order or an equality test that
+/// stops at the shorter text sees them as equal)
+pub const ORDER_VARIANTS: [&str; 8] = ["zaaaa", "aaaaz", "bbbbbb", "1zzz", "9aaa", "aaaaaaaa", "aaaaa", "1zzzab"];
+pub const ORDER_REAL_PAIRS: [(&str, &str); 6] = [("hepburn", "heploc"), ("arevela", "fonipa"), ("ekavsk", "fonipa"), ("1606nict", "1996"), ("1901", "1901orth"), ("macos", "macosx")];
 /// the same idea for 3..8-character attributes / types / private tags
-pub const ORDER_WORDS: [&str; 5] = ["zaa", "aaz", "bbbb", "9aa", "aaaaaaaa"];
+pub const ORDER_WORDS: [&str; 7] = ["zaa", "aaz", "bbbb", "9aa", "aaaaaaaa", "aaa", "zaab"];
 
 /// every ordered pair and triple of the hazard alphabet (and both orders of the real pairs)
 pub fn order_lists() -> Vec<Vec<&'static str>> {
@@ -1065,6 +1104,70 @@ pub fn order_inputs() -> Vec<Vec<u8>> {
         }
     }
     set.into_iter().collect()
+}
+
+/// The order-hazard lists as skeletons with their unordered groups marked, for the permutation /
+/// duplication transformations of C09 (an order that is not total on prefix-related or
+/// integer-vs-text hazards shows as a dependence on the order in which the list was written).
+pub fn order_skeletons() -> Vec<Skeleton> {
+    let mut out = vec![];
+    for l in order_lists() {
+        let j = l.join("-");
+        out.push(build_skeleton(&format!("en-{}", j), "", "", "", false));
+        out.push(build_skeleton(&format!("und-Latn-US-{}", j), "u-ca-buddhist", "", "x-a", false));
+        out.push(build_skeleton("en", "", &format!("t-de-{}-h0-hybrid", j), "", false));
+    }
+    let w = ORDER_WORDS;
+    for a in w {
+        for b in w {
+            for c in w {
+                if a != b && b != c && a != c {
+                    out.push(build_skeleton("en", &format!("u-{}-{}-{}", a, b, c), "", "", false));
+                    out.push(build_skeleton("en-valencia", &format!("u-{}-{}-{}-ca-{}", a, b, c, a), "t-h0-hybrid", "", true));
+                }
+            }
+        }
+    }
+    out
+}
+
+/// Space E4.singletons: EVERY alphanumeric byte (62) and a few others at singleton position, in
+/// front of bodies that would be well-formed -u-, -t-, -x- or other-extension bodies, behind
+/// complete extensions, and every ordered pair of them as two extensions of one identifier.
+/// (The class alphabets carry only a handful of singleton letters; a dispatch that keys on bits
+/// of the byte can confuse any two of them.)
+pub fn singleton_inputs() -> Vec<Vec<u8>> {
+    let mut bytes: Vec<u8> = (b'0'..=b'9').chain(b'a'..=b'z').chain(b'A'..=b'Z').collect();
+    bytes.extend([b'*', b'@', b'[', b'`', b'{', b'/', b':', 0x80]);
+    let mut out: Vec<Vec<u8>> = vec![];
+    let put = |tmpl: &str, b1: u8, b2: u8, out: &mut Vec<Vec<u8>>| {
+        let mut v = vec![];
+        for c in tmpl.bytes() {
+            match c {
+                b'#' => v.push(b1),
+                b'%' => v.push(b2),
+                c => v.push(c),
+            }
+        }
+        out.push(v);
+    };
+    for &b in &bytes {
+        for t in [
+            "en-#", "en-#-ca-buddhist", "en-#-es-AR", "en-#-private", "en-#-abc", "en-#-h0-hybrid", "en-#-ab", "en-#-abc-def-ghi",
+            "en-u-ca-buddhist-#-abc", "en-t-de-#-abc", "en-t-h0-hybrid-#-abc", "en-#-abc-x-a", "en-x-#-abc", "en-#-abc-u-ca-buddhist",
+            "und_#_foo_bar", "en-Latn-US-valencia-#-a1-zzz", "EN-#-CA-BUDDHIST", "en-#-ca-buddhist-#-nu-thai", "en-#-de-#-h0-hybrid",
+            "en-#-true", "en-#-1996", "en-#-valencia",
+        ] {
+            put(t, b, b, &mut out);
+        }
+    }
+    for &b1 in &bytes {
+        for &b2 in &bytes {
+            put("en-#-abc-%-def", b1, b2, &mut out);
+            put("en-#-ca-buddhist-%-h0-hybrid", b1, b2, &mut out);
+        }
+    }
+    out
 }
 
 /// Length ladder (space E2.ladder): for EVERY byte length L up to `max_len` an identifier whose
